@@ -20,6 +20,9 @@ def rs(rng, n, alphabet=ALNUM):
 
 # optional block ids the standard (TR-31:2018 / X9.143) gives a meaning to: to the properties they are ids like any other, with
 # any printable data - an implementation that treats some of them specially must still frame, wrap and unwrap them
+STANDARD_USAGES = ["B0", "B1", "B2", "C0", "D0", "D1", "D2", "E0", "E1", "E2", "E3", "E4", "E5", "E6", "I0", "K0", "K1", "K2", "K3", "M0", "M1", "M2",
+                   "M3", "M4", "M5", "M6", "M7", "M8", "P0", "S0", "S1", "S2", "V0", "V1", "V2", "V3", "V4", "10", "i0", "00"]
+STANDARD_MODES = list("BCDEGNSTVXY") + ["0", "1"]
 STANDARD_IDS = ["AL", "BI", "CT", "DA", "FL", "HM", "IK", "KC", "KP", "KS", "KV", "LB", "PK", "TC", "TS", "WP", "kc", "Kp", "ts", "10", "99", "00"]
 
 
@@ -43,6 +46,9 @@ def rand_blocks(rng, n, lens=None):
 def make_header(rng, ver, blocks=(), reserved=None, alg=None, via_load=None):
     """A psec Header object built through the public API (reserved != '00' only via load)."""
     ku, al, mou, vn, ex = rs(rng, 2), alg or rng.choice("TDA0RHEtda" + ALNUM), rs(rng, 1), rs(rng, 2), rs(rng, 1)
+    if rng.random() < 0.4:
+        # the values the standard defines (an implementation may attach a meaning to any of them; the properties do not)
+        ku, mou, vn, ex = rng.choice(STANDARD_USAGES), rng.choice(STANDARD_MODES), rng.choice(("00", "01", "c1", vn)), rng.choice("ENS")
     if reserved is None and rng.random() < 0.3:
         reserved = rs(rng, 2)
     if reserved is not None and reserved != "00" or via_load:
